@@ -124,3 +124,70 @@ Proof.
   pose proof (be_dec_bytes id Hid) as E. unfold be_dec in *. cbn [fold_left] in *.
   unfold byte_at in *. change (2 ^ (8 * 0)) with 1 in *. rewrite N.div_1_r in E. lia.
 Qed.
+
+(** ** Index-level consequence of a torn create (partial: ids below 256, 1-byte key length) *)
+Lemma replay_snoc W g : replay (W ++ [g]) = exec (replay W) g.
+Proof. unfold replay. now rewrite fold_left_app. Qed.
+
+Lemma scan_end_snoc W g : scan_end (W ++ [g]) = se_off g + se_size g.
+Proof. unfold scan_end. now rewrite fold_left_app. Qed.
+
+Lemma crash_create_zero p st e : PInv p st -> crash_append p st e 0 = st.
+Proof. intro I. unfold crash_append. cbn [firstn]. rewrite app_nil_r. now apply reopen_id. Qed.
+
+Lemma crash_create_old_preserved p st body m :
+  PInv p st -> N.of_nat (length body) < 128 -> seq st < 256 ->
+  (S m <= length (enc (Ins (seq st) (mk_key body))))%nat ->
+  let k := mk_key body in
+  let st' := crash_append p st (Ins (seq st) k) (S m) in
+  seq st <= seq st' /\
+  forall k0 id0, find_id (ix st) k0 = id0 -> id0 <> 0 -> k0 <> read_key (firstn (m - 8) k) ->
+                 find_id (ix st') k0 = id0 /\ key_of st' id0 = k0 /\ is_deleted (ix st') id0 = false.
+Proof.
+  intros I Hb Hq Hn k st'.
+  pose proof I as [[L (Hs & Hw & Hi & Hsq)] Hc Hlt Hfun Hoff Hio Htb].
+  assert (H64 : seq st < 2 ^ 64) by (change (2 ^ 64) with 18446744073709551616; lia).
+  assert (Hse : small_entry (Ins (seq st) k)).
+  { split; [assumption|]. exists body. auto. }
+  set (gid := torn_id (seq st) m). set (gk := read_key (firstn (m - 8) k)).
+  set (pos := HDR + N.of_nat (length (bytes_of L))).
+  assert (Hscan : scan (seg st ++ firstn (S m) (enc (Ins (seq st) k)))
+                  = with_offsets L HDR ++ [{| se_flag := FLAG_INS; se_id := gid; se_off := pos; se_key := gk |}]).
+  { rewrite Hs, torn_scan by assumption. rewrite scan_go_1_torn_ins, torn_id_app. reflexivity. }
+  assert (Hgid : gid = 0 \/ gid = seq st).
+  { unfold gid. destruct (Nat.le_gt_cases 8 m).
+    - right. apply torn_id_full; assumption.
+    - left. now apply torn_id_small. }
+  assert (Hix : ix st' = ins_ix (ix st) gk gid pos).
+  { unfold st', crash_append, open_part. cbn [ix]. rewrite Hscan, replay_snoc, <- Hi. apply exec_ins. }
+  assert (Hsg : exists X, seg st' = seg st ++ X).
+  { unfold st', crash_append, open_part. cbn [seg]. rewrite Hscan, scan_end_snoc.
+    unfold se_size. cbn [se_off se_key]. unfold pos. rewrite Hs.
+    replace (N.to_nat (HDR + N.of_nat (length (bytes_of L)) + (9 + N.of_nat (length gk)) - HDR))
+      with (length (bytes_of L) + (9 + length gk))%nat by lia.
+    rewrite take0_app_ge. eauto. }
+  split.
+  - unfold st', crash_append, open_part. cbn [seq]. rewrite Hscan, max_ins_snoc. cbn [se_flag se_id].
+    pose proof (next_seq_gt p L) as [Hm Hp1]. rewrite <- Hsq in Hm, Hp1.
+    change (FLAG_INS =? FLAG_INS) with true. cbn [andb].
+    destruct (max_ins (with_offsets L HDR) <? gid) eqn:E.
+    + destruct Hgid as [G|G]; [lia|]. rewrite G. destruct (p + 1 <=? seq st) eqn:E2; lia.
+    + fold (next_seq p L). lia.
+  - intros k0 id0 H0 Hnz Hk0.
+    destruct (find_id_spec _ _ _ H0 Hnz) as [A D]. pose proof (assoc_key_in _ _ _ A) as Ain.
+    destruct (Hlt _ _ Ain) as [Hid0 _].
+    assert (Hne : id0 <> gid) by (destruct Hgid; lia).
+    rewrite Hix. split; [|split].
+    + rewrite find_id_ins_other; [assumption | exact Hk0 |].
+      intros id1 A1. destruct (N.eq_dec id1 0); [now left | right].
+      apply assoc_key_in in A1. destruct (Hlt _ _ A1). destruct Hgid; lia.
+    + destruct (Hoff _ _ Ain) as [Hf [off (Ha & Hge & rest & Hr)]].
+      unfold key_of. destruct (id0 =? 0) eqn:Z; [apply N.eqb_eq in Z; contradiction|].
+      rewrite Hix, find_off_ins.
+      destruct (gid =? id0) eqn:G; [apply N.eqb_eq in G; congruence|].
+      unfold find_off. rewrite Ha.
+      destruct (off =? 0) eqn:Z2; [apply N.eqb_eq in Z2; unfold HDR in Hge; lia|].
+      destruct Hsg as [X HX]. unfold key_at. rewrite HX, skipn_app_le, Hr, <- app_assoc; [apply Hf|].
+      eapply skipn_some_le; [exact Hr | now apply framed_nonnil].
+    + now rewrite is_deleted_ins_other.
+Qed.
